@@ -437,6 +437,17 @@ class VQueue:
         return self.q
 
 
+class VLifoQueue(VQueue):
+    def get(self, block=True, timeout=None):
+        self.s.yield_point("queue.get")
+        if not self.q:
+            if not block:
+                raise _queue.Empty
+            if not self.s.block_until(lambda: bool(self.q), timeout, "queue"):
+                raise _queue.Empty
+        return self.q.pop()
+
+
 class VBarrier:
     def __init__(self, sched, parties, action=None, timeout=None):
         self.s = sched
@@ -509,6 +520,12 @@ class VQueueMod:
 
     def Queue(self, maxsize=0):
         return VQueue(self.s, maxsize)
+
+    def SimpleQueue(self):
+        return VQueue(self.s)
+
+    def LifoQueue(self, maxsize=0):
+        return VLifoQueue(self.s, maxsize)
 
 
 class VTime:
